@@ -92,6 +92,33 @@ def gen_prm(ctx):
     return ops
 
 
+def run_nul(ctx):
+    """names that differ from the demanded one only behind an embedded NUL character (values a caller can build with
+    JSON_ALLOW_NUL or json_stringn; the command-line tool cannot).  The property compares names as JSON strings; the
+    library compares them as C strings.  Evaluated on the implementation only, judged by the property."""
+    import keys as K, jwsgen as G
+    pool = K.pool(ctx.jose)
+    k = pool["oct-32"]
+    pay = G.b64u(b"nul")
+    tok = ctx.real([("jws.sig", {"jws": {"payload": pay}, "sig": {"protected": {"alg": "HS256"}}, "jwk": k})])[0]
+    ops = [("jwk.prm", {"jwk": dict(k, key_ops=["sign\u0000x"]), "op": "sign", "req": True, "_why": "key_ops [\"sign\\0x\"] grants sign"}),
+           ("jwk.prm", {"jwk": dict(k, use="sig\u0000x"), "op": "sign", "req": True, "_why": "use \"sig\\0x\" grants sign"}),
+           ("jwk.prm", {"jwk": dict(k, use="enc\u0000x"), "op": "encrypt", "req": True, "_why": "use \"enc\\0x\" grants encrypt"}),
+           ("jws.sig", {"jws": {"payload": pay}, "sig": {"protected": {"alg": "HS256"}}, "jwk": dict(k, alg="HS256\u0000x"), "_why": "key declaring alg \"HS256\\0x\" signs with HS256"}),
+           ("jws.sig", {"jws": {"payload": pay}, "sig": {"protected": {"alg": "HS256"}}, "jwk": dict(k, alg="HS384\u0000"), "_why": "control: key declaring alg \"HS384\\0\" with HS256"})]
+    if tok.get("ok"):
+        ops.append(("jws.ver", {"jws": tok["jws"], "jwk": dict(k, alg="HS256\u0000x"), "all": False, "_why": "key declaring alg \"HS256\\0x\" verifies an HS256 token"}))
+    sent = [(o, {a: v for a, v in args.items() if not a.startswith("_")}) for o, args in ops]
+    for (o, a), r in zip(ops, ctx.real(sent)):
+        ctx.evaluations += 1
+        granted = r.get("r") if o in ("jwk.prm", "jws.ver") else r.get("ok")
+        if granted and "control" not in a["_why"]:
+            ctx.pfails.append(("nul:c-string-compare", "a name that differs only behind a NUL is taken for the name: %s" % a["_why"], o, sent[ops.index((o, a))][1], r))
+        elif granted:
+            ctx.pfails.append(("select:nul-control", "control case accepted: %s" % a["_why"], o, {}, r))
+    ctx.count("nul-variants", len(ops))
+
+
 def run(ctx):
     ops = gen_prm(ctx)
     for i in range(0, len(ops), 200000):
@@ -100,6 +127,7 @@ def run(ctx):
     extra = globals().get("run_select")
     if extra:
         extra(ctx)
+    run_nul(ctx)
 
 
 def run_select(ctx):
